@@ -32,7 +32,17 @@ ModelValue(t, i) ==
     [] t = "solvable" -> IF i + 1 \in DOMAIN solvs' THEN solvs'[i + 1] ELSE <<-1>>
     [] t = "union" -> IF i + 1 \in DOMAIN unions' THEN unions'[i + 1] ELSE <<-1>>
 
-Op == /\ l <= Len(Rec) /\ Rec[l].ev = "op" /\ l' = l + 1 /\ UNCHANGED hid
+\* the call refers only to ids the model knows (otherwise the real pool has handed out an
+\* id the model never did: reported, the call is skipped, the rest is still judged)
+Known(r) == CASE r.op \in {"vs", "solvable"} -> r.a + 1 \in DOMAIN names
+              [] r.op = "union" -> r.ms # <<>> /\ \A i \in DOMAIN r.ms : r.ms[i] + 1 \in DOMAIN vss
+              [] OTHER -> TRUE
+
+OpUnknown == /\ l <= Len(Rec) /\ Rec[l].ev = "op" /\ ~Known(Rec[l]) /\ l' = l + 1
+             /\ UNCHANGED <<hid, bulk, names, strs, vss, solvs, unions, ret>>
+             /\ Fail("C18_Id", <<"call refers to an id the model never handed out", Rec[l].op, Rec[l].a>>)
+
+Op == /\ l <= Len(Rec) /\ Rec[l].ev = "op" /\ Known(Rec[l]) /\ l' = l + 1 /\ UNCHANGED hid
       /\ LET r == Rec[l] IN
          /\ CASE r.op = "name" -> P!InternName(r.a)
               [] r.op = "string" -> P!InternString(r.a)
@@ -48,7 +58,7 @@ Op == /\ l <= Len(Rec) /\ Rec[l].ev = "op" /\ l' = l + 1 /\ UNCHANGED hid
          /\ (IF Len(names') > 128 /\ Len(vss') > 128 /\ Len(solvs') > 128
              THEN PrintT("COVER|" \o ToString(hid) \o "|1|chunks") ELSE TRUE)
 
-Next == Reset \/ Op
+Next == Reset \/ Op \/ OpUnknown
 Spec == Init /\ [][Next]_vars
 Accepted ==
   IF TLCGet("stats").diameter - 1 = Len(Rec) THEN TRUE
